@@ -29,6 +29,8 @@ RULE = (
     "exchange vs outcome. Distinct by (op, level, fault, k, clock step pattern)."
     " One case in four creates the community client for the OTHER version with the same commu"
     "nity string and switches it by configure()."
+    " Foreign error responses vary their error-index (0, 1, beyond the list, -1) and bindings"
+    " (echoed, absent)."
 )
 ASSUMPTIONS = [
     "the agent's engine clock is a separate frozen clock, so stepping the client's clock does not touch timeliness (C12)",
